@@ -262,6 +262,8 @@ def main():
         tier = sys.argv[2]
     tier = os.environ.get('VERIF_TIER', tier) if sys.argv[2] != '--replay' and sys.argv[2] not in ('quick', 'thorough') else tier
     seed = int(os.environ.get('VERIF_SEED', '0'))
+    # one case may not hold up a run: 60 s in the quick tier, 120 s otherwise (a timed-out case is counted as skipped)
+    os.environ.setdefault('VERIF_CASE_TIMEOUT', '60' if (tier == 'quick' and replay is None) else '120')
     t_start = time.time()
     violations = []   # (replay_path, no_input)
     known_hit = []
